@@ -20,7 +20,10 @@ def collect():
 	return found
 
 
-CHECKS = collect()
+# checks whose theorems and correspondence have been run to completion by the lead on /repo (others stay in not_applicable until then)
+READY = ['C13', 'C08', 'C16', 'C17', 'C20', 'C05']
+
+CHECKS = {pid: info for pid, info in collect().items() if pid in READY}
 
 PENDING_REASON = 'check not yet built in this round (planned at proof level, see DESIGN.md section 4); not claimed until its theorems and correspondence run'
 
